@@ -1608,6 +1608,55 @@ func Replay(c *core.Ctx, lines []string) {
 	}
 }
 
+// ---- nodes of very high degree (the degree is unbounded in the property's quantifier) ----
+
+// bigStar: a polytomy of d tips t0.. plus a cherry (u0,u1)y below the root: the root has d+1 neighbours
+func bigStar(d int) *core.N {
+	root := &core.N{}
+	for i := 0; i < d; i++ {
+		root.Kids = append(root.Kids, &core.N{Name: fmt.Sprintf("t%d", i), E: core.NewE()})
+	}
+	y := &core.N{Name: "y", E: core.NewE()}
+	y.Kids = []*core.N{{Name: "u0", E: core.NewE()}, {Name: "u1", E: core.NewE()}}
+	root.Kids = append(root.Kids, y)
+	return root
+}
+
+// hugeDegreeCases: per degree one ASR and one ACR case whose counts at the root reach 255, 256, 257 … for one state
+// against a small count for another (site 0: all A but the last tip of the star; site 1: two tips differ, the cherry
+// too; site 2: halves), through the library and, for two of them, through the binary
+func hugeDegreeCases(c *core.Ctx) {
+	for k, d := range []int{255, 256, 257, 300, 512} {
+		n := bigStar(d)
+		names := n.TipNames()
+		sort.Strings(names)
+		seqs := make([]string, len(names))
+		tips := map[string]string{}
+		for i, nm := range names {
+			b := []byte("AAA")
+			switch {
+			case nm == fmt.Sprintf("t%d", d-1):
+				b = []byte("CCC")
+			case nm == fmt.Sprintf("t%d", d-2):
+				b = []byte("ACG")
+			case nm == "u0" || nm == "u1":
+				b = []byte("AGC")
+			}
+			if strings.HasPrefix(nm, "t") && i%2 == 0 && string(b) == "AAA" {
+				b[2] = 'C'
+			}
+			seqs[i] = string(b)
+			tips[nm] = string(b[:1])
+		}
+		doAsr(c, n, names, seqs, k%3, false)
+		doAcr(c, n, tips, (k+1)%3)
+		if c.Gotree != "" && (d == 256 || d == 257) {
+			cliAsr(c, n, names, seqs, (k+2)%3, false, false)
+			cliAcr(c, n, tips, k%3)
+		}
+	}
+}
+
 // Run generates the cases of C12.
 func Run(c *core.Ctx) {
 	if c.Arg != "" {
@@ -1615,6 +1664,9 @@ func Run(c *core.Ctx) {
 		return
 	}
 	bigTrees = !c.Quick()
+	if c.Seed%1000 == c.Seed || c.Seed%1000 == 0 { // once per run (first shard of the thorough tier)
+		hugeDegreeCases(c)
+	}
 	n := c.Scale(600, 15000)
 	for i := 0; i < n; i++ {
 		if i%3 == 2 {
